@@ -7,7 +7,7 @@ Require Import Lia.
 Local Open Scope nat_scope.
 
 Definition awake (p : pc) : bool :=
-  match p with WIdle | WSub _ _ _ | WHop _ _ | WPeek _ _ | WStop _ | WQry _ _ => true | _ => false end.
+  match p with WIdle | WSub _ _ _ | WHop _ _ | WPeek _ _ | WStop _ | WQry _ _ | WWait _ _ => true | _ => false end.
 Definition wpc_ok (p : pc) : bool := match p with WSleep => true | _ => awake p end.
 
 Definition Wake (s : st) : Prop :=
@@ -21,7 +21,8 @@ Record InvC (s : st) : Prop := {
   c_wpc : exit_ s = false -> forall i p, T s i = Some p -> nclients s <= i -> wpc_ok p = true;
   c_hasw : nclients s < length (thrs s);
   c_jw : forall t l q f a w, T s t = Some (Join l q f a) -> In w l -> poolw s w /\ w <> t;
-  c_wk0 : exit_ s = false -> woken s = []
+  c_wk0 : exit_ s = false -> woken s = [];
+  c_tokq : exit_ s = false -> Nat.min (length (queue s)) (sleepers s) <= tokens s
 }.
 
 Lemma invc_frame s s' i p old : InvC s -> T s i = Some old ->
@@ -35,9 +36,10 @@ Lemma invc_frame s s' i p old : InvC s -> T s i = Some old ->
   (exit_ s' = false -> exit_ s = false /\ (nclients s <= i -> wpc_ok p = true)) ->
   (forall l q f a w, p = Join l q f a -> In w l -> poolw s w /\ w <> i) ->
   (exit_ s' = false -> woken s' = []) ->
+  (exit_ s' = false -> Nat.min (length (queue s')) (sleepers s') <= tokens s') ->
   InvC s'.
 Proof.
-  intros [C1 C2 C3 C4 C5 C6 C7 C8] H Et En Y1 Y2 Y3 Y4 Y5 Y6 Y7.
+  intros [C1 C2 C3 C4 C5 C6 C7 C8 C9] H Et En Y1 Y2 Y3 Y4 Y5 Y6 Y7 Y8.
   pose proof (TT_set s s' i p old H Et) as TT.
   assert (LEN : length (thrs s') = length (thrs s)) by (rewrite Et; apply set_nth_length).
   constructor; auto.
@@ -58,6 +60,18 @@ Proof.
     + intros Q Hin. inversion Q. subst t. eapply Y6; eassumption.
     + apply C7.
 Qed.
+
+Definition b2n (b : bool) : nat := if b then 1 else 0.
+Lemma filter_set_nth (l : list pc) : forall i p old, nth_error l i = Some old ->
+  length (filter is_sleep (set_nth l i p)) + b2n (is_sleep old) = length (filter is_sleep l) + b2n (is_sleep p).
+Proof.
+  induction l as [|x l IH]; intros [|i] p old H; cbn [nth_error] in H; try discriminate.
+  - inversion H; subst. cbn [set_nth filter]. destruct (is_sleep old), (is_sleep p); cbn [length b2n]; lia.
+  - cbn [set_nth filter]. specialize (IH i p old H). destruct (is_sleep x); cbn [length]; lia.
+Qed.
+Lemma sleepers_set s s' i p old : T s i = Some old -> thrs s' = set_nth (thrs s) i p ->
+  sleepers s' + b2n (is_sleep old) = sleepers s + b2n (is_sleep p).
+Proof. intros H E. unfold sleepers. rewrite E. apply filter_set_nth. exact H. Qed.
 
 (* ways to re-establish Wake *)
 Lemma wake_self s' i p : T s' i = Some p -> awake p = true -> Wake s'.
@@ -118,24 +132,30 @@ Proof.
 Qed.
 
 (* a thread moves between pcs that do not sleep; flags, tokens and queue stay *)
-Lemma invc_move s i p old : InvC s -> T s i = Some old ->
+Lemma invc_move s i p old : InvC s -> T s i = Some old -> is_sleep old = false ->
   is_sleep p = false -> (awake old = false \/ awake p = true) ->
   (exit_ s = false -> nclients s <= i -> wpc_ok p = true) ->
   (stopper old = true -> stopper p = true) ->
   (forall l q f a w, p = Join l q f a -> In w l -> exists l0, old = Join l0 q f a /\ In w l0) ->
   InvC (with_thr s i p).
 Proof.
-  intros C H Sp A Wp St J.
-  apply (invc_frame s _ i p old C H); unfold with_thr;
-    cbn [queue exit_ stopped threads tokens woken destroyed nclients thrs extw uad]; auto.
-  - intros X. split; [intros j _; apply (c_ex s C X)|]. intros ->. discriminate.
-  - intros X. split; [intros j l q a _; apply (c_st s C X)|]. intros l q a ->. discriminate.
-  - intros X Sf. destruct (c_first s C X Sf) as (t & pt & Ht & Spt). destruct (Nat.eq_dec t i) as [->|N].
+  intros C H So Sp A Wp St J.
+  set (s' := with_thr s i p).
+  pose proof (sleepers_set s s' i p old H eq_refl) as SL. rewrite So, Sp in SL. cbn [b2n] in SL.
+  assert (W' : forall j, is_woken s' j = is_woken s j) by reflexivity.
+  apply (invc_frame s s' i p old C H); try reflexivity.
+  - change (exit_ s') with (exit_ s). intros X. split; [intros j _; rewrite W'; apply (c_ex s C X)|]. intros ->. discriminate.
+  - change (stopped s') with (stopped s). intros X. split; [intros j l q a _; rewrite W'; apply (c_st s C X)|]. intros l q a ->. discriminate.
+  - change (exit_ s') with (exit_ s). change (stopped s') with (stopped s).
+    intros X Sf. destruct (c_first s C X Sf) as (t & pt & Ht & Spt). destruct (Nat.eq_dec t i) as [->|N].
     + left. apply St. unfold T in *. congruence.
     + right. exists t, pt. auto.
-  - apply (wake_keep s _ i p old (c_wake s C) H); auto.
+  - apply (wake_keep s s' i p old (c_wake s C) H); auto.
+  - change (exit_ s') with (exit_ s). auto.
   - intros l q f a w E Hin. destruct (J l q f a w E Hin) as (l0 & -> & I0). eapply (c_jw s C); eassumption.
   - apply (c_wk0 s C).
+  - change (exit_ s') with (exit_ s). change (queue s') with (queue s). change (tokens s') with (tokens s).
+    intros X. pose proof (c_tokq s C X). lia.
 Qed.
 
 Lemma invc_enqueue s i l k b p old : InvB s -> InvC s -> T s i = Some old ->
@@ -171,6 +191,10 @@ Proof.
   - rewrite E1. auto.
   - intros l0 q f a w E. subst p. discriminate.
   - rewrite E1, E4. apply (c_wk0 s C).
+  - rewrite E1, E5, E6, hq, hk. intros X. rewrite X, (c_wk0 s C X). cbn [length]. rewrite Nat.add_0_r.
+    pose proof (sleepers_set s s' i p old H Et) as SL. rewrite So, Sp in SL. cbn [b2n] in SL.
+    pose proof (c_tokq s C X) as TQ. rewrite app_length. cbn [length].
+    destruct (Nat.ltb_spec (tokens s) (sleepers s)); lia.
 Qed.
 
 Lemma fin_pc_props t first a : is_sleep (fin_pc t first a) = false /\ (first = true -> stopper (fin_pc t first a) = true) /\
@@ -218,6 +242,7 @@ Proof.
   - intros l0 q0 f0 a0 w E0. unfold p in E0. destruct l as [|w0 l]; [exfalso; eapply F3, E0|].
     inversion E0; subst. apply HJ.
   - rewrite e1, EX. discriminate.
+  - rewrite e1, EX. discriminate.
 Qed.
 
 Lemma returned_as_aw s0 t a : fst (returned s0 t a) = fst (after_wait s0 t [] [] false a).
@@ -259,16 +284,19 @@ Qed.
 Lemma invc_worker_cs s s0 w old : InvC s -> T s w = Some old -> stopper old = false ->
   thrs s0 = thrs s -> nclients s0 = nclients s -> exit_ s0 = exit_ s -> stopped s0 = stopped s -> queue s0 = queue s ->
   (forall j, j <> w -> is_woken s0 j = is_woken s j) -> (exit_ s0 = false -> woken s0 = []) ->
+  (exit_ s0 = false -> (is_sleep old = false /\ tokens s0 = tokens s) \/ (is_sleep old = true /\ S (tokens s0) = tokens s)) ->
   InvC (fst (worker_cs s0 w)).
 Proof.
-  intros C H NSo Et En Ee Es Eq Ew Ew0.
+  intros C H NSo Et En Ee Es Eq Ew Ew0 HT.
   assert (FR : forall p s2, thrs s2 = thrs s0 -> nclients s2 = nclients s0 -> exit_ s2 = exit_ s0 ->
              stopped s2 = stopped s0 -> woken s2 = woken s0 -> stopper p = false ->
              (forall l q a, p <> SWait l q a) ->
              (exit_ s0 = true -> p <> WSleep) ->
              (exit_ s0 = false -> wpc_ok p = true /\ (awake p = true \/ queue s2 = [])) ->
+             tokens s2 = tokens s0 ->
+             (exit_ s0 = false -> queue s2 = [] \/ (is_sleep p = false /\ S (length (queue s2)) = length (queue s))) ->
              InvC (with_thr s2 w p)).
-  { intros p s2 E1 E2 E3 E4 E5 NSp NSW PX PN.
+  { intros p s2 E1 E2 E3 E4 E5 NSp NSW PX PN E6 PQ.
     set (s' := with_thr s2 w p).
     assert (Et2 : thrs s' = set_nth (thrs s) w p) by (unfold s', with_thr; cbn [thrs]; rewrite E1, Et; reflexivity).
     assert (W' : forall j, is_woken s' j = is_woken s0 j) by (intros j; unfold is_woken, s', with_thr; cbn [woken]; rewrite E5; reflexivity).
@@ -288,7 +316,12 @@ Proof.
       + exfalso. apply Q. exact A.
     - change (exit_ s') with (exit_ s2). rewrite E3. intros X. split; [congruence|]. intros _. apply (PN X).
     - intros l q f a w0 E. subst p. discriminate.
-    - change (exit_ s') with (exit_ s2). change (woken s') with (woken s2). rewrite E3, E5. exact Ew0. }
+    - change (exit_ s') with (exit_ s2). change (woken s') with (woken s2). rewrite E3, E5. exact Ew0.
+    - change (exit_ s') with (exit_ s2). change (queue s') with (queue s2). change (tokens s') with (tokens s2).
+      rewrite E3, E6. intros X. destruct (PQ X) as [Q0|[Sp Q1]]; [rewrite Q0; cbn [length]; lia|].
+      pose proof (sleepers_set s s' w p old H Et2) as SL. rewrite Sp in SL. cbn [b2n] in SL.
+      assert (X0 : exit_ s = false) by congruence. pose proof (c_tokq s C X0) as TQ.
+      destruct (HT X) as [[So Tk]|[So Tk]]; rewrite So in SL; cbn [b2n] in SL; lia. }
   unfold worker_cs. destruct (exit_ s0) eqn:EX.
   - cbn [fst]. destruct (exit_pc_dtor s0 w) as (X1 & _).
     apply FR; auto; try discriminate.
@@ -304,7 +337,10 @@ Proof.
         -- destruct (job_next_dtor (cb x)); auto.
         -- intros l q a E. rewrite E in A. discriminate.
         -- intros _. split; [unfold wpc_ok; destruct (job_next (cb x)); auto|left; exact A].
-      * cbn [fst]. apply FR; try reflexivity; try discriminate; try exact EX. intros _. split; [reflexivity|left; reflexivity].
+        -- intros _. right. split; [destruct (cb x) as [|[] ?]; reflexivity|]. rewrite <- Eq. reflexivity.
+      * cbn [fst]. apply FR; try reflexivity; try discriminate; try exact EX.
+        -- intros _. split; [reflexivity|left; reflexivity].
+        -- intros _. right. split; [reflexivity|]. rewrite <- Eq. reflexivity.
 Qed.
 
 Lemma invc_wake_same s i : InvC s -> (exists p, T s i = Some p /\ is_sleep p = true /\ p <> WSleep) ->
@@ -316,7 +352,7 @@ Proof.
   assert (STq : stopped (wake s i) = stopped s) by (unfold wake; destruct (is_woken s i); reflexivity).
   assert (NC : nclients (wake s i) = nclients s) by (unfold wake; destruct (is_woken s i); reflexivity).
   assert (TT : forall j, T (wake s i) j = T s j) by (intros j; unfold T; rewrite TH; reflexivity).
-  destruct C as [C1 C2 C3 C4 C5 C6 C7 C8].
+  destruct C as [C1 C2 C3 C4 C5 C6 C7 C8 C9].
   constructor.
   - intros _ j Hj. rewrite TT in Hj. rewrite is_woken_wake; [apply C1; auto|].
     intros ->. unfold T in *. rewrite H in Hj. inversion Hj. subst p. apply NW. reflexivity.
@@ -327,6 +363,7 @@ Proof.
   - rewrite NC. unfold wake. destruct (is_woken s i); exact C6.
   - intros t l q f a w. rewrite TT. unfold poolw. rewrite NC, TH. apply C7.
   - rewrite EXq, X. discriminate.
+  - rewrite EXq, X. discriminate.
 Qed.
 
 Theorem invc_core s i : InvB s -> InvC s -> enabled s i = true -> InvC (cstep s i).
@@ -335,10 +372,10 @@ Proof.
   destruct (nth_error (thrs s) i) as [p|] eqn:H; [|discriminate].
   assert (HT : T s i = Some p) by exact H.
   pose proof (b_class s B i p HT) as [CL1 CL2].
-  destruct p as [prog| | | | | |l k r|l r|l r|r|q r| |l q f a|l q a|a].
+  destruct p as [prog| | | | | |l k r|l r|l r|r|q r|wl r| |l q f a|l q a|a].
   - assert (NW : ~ nclients s <= i).
     { intros L. specialize (CL1 L). discriminate. }
-    destruct prog as [|[l k b| |] r].
+    destruct prog as [|[l k b| | |wl] r].
     + cbn [fst]. destruct (next_client_plain i []) as (X1 & _).
       apply (invc_move s i _ (CAt []) C HT); auto; try (intros; lia); try discriminate.
       * unfold next_client. destruct (Nat.eqb i 0); reflexivity.
@@ -350,6 +387,10 @@ Proof.
       destruct (stop_mark s i (AClient r)) as [s1 e]. cbn [fst] in *. apply E; reflexivity.
     + pose proof (invc_worker_cs s (with_ext s i r) i _ C HT) as E.
       destruct (worker_cs (with_ext s i r) i) as [s1 e]. cbn [fst] in *. apply E; auto. apply (c_wk0 s C).
+    + cbn [fst]. destruct (next_client_plain i r) as (X1 & _).
+      apply (invc_move s i _ (CAt (OWait wl :: r)) C HT); auto; try (intros; lia); try discriminate.
+      * unfold next_client. destruct r; [destruct (Nat.eqb i 0)|]; reflexivity.
+      * intros l q f a w E. rewrite E in X1. discriminate.
   - cbn [fst]. apply (invc_move s i CDtor CXWait C HT); auto; try discriminate.
     intros _ L. specialize (CL1 L). discriminate.
   - pose proof (invc_stop_mark s i ADtor _ B C HT) as E.
@@ -363,6 +404,10 @@ Proof.
     + intros j Nj. apply is_woken_wake, Nj.
     + intros X. assert (X0 : exit_ s = false) by (unfold wake in X; destruct (is_woken s i); exact X).
       pose proof (c_wk0 s C X0) as W0. unfold wake, is_woken. rewrite W0. cbn [existsb]. exact W0.
+    + intros X. right. split; [reflexivity|].
+      assert (X0 : exit_ s = false) by (unfold wake in X; destruct (is_woken s i); exact X).
+      pose proof (c_wk0 s C X0) as W0. unfold wake, is_woken. rewrite W0. cbn [existsb with_tokens tokens].
+      unfold is_woken in EN. rewrite W0 in EN. cbn [existsb] in EN. rewrite Bool.orb_false_r in EN. apply Nat.ltb_lt in EN. lia.
   - pose proof (invc_enqueue s i l k [] (job_next r) _ B C HT) as E.
     destruct (enqueue s i l k []) as [s1 e]. cbn [fst] in *. destruct (job_next_dtor r) as (X1 & _).
     assert (A : awake (job_next r) = true) by (destruct r as [|[] ?]; reflexivity).
@@ -384,6 +429,12 @@ Proof.
     assert (S : is_sleep (job_next r) = false) by (destruct r as [|[] ?]; reflexivity).
     assert (NJ : forall l0 q f a, job_next r <> Join l0 q f a) by (intros; destruct r as [|[] ?]; discriminate).
     apply (invc_move s i _ (WQry q r) C HT); auto; try discriminate;
+      intros l0 q0 f a w E; exfalso; eapply NJ, E.
+  - cbn [fst]. assert (A : awake (job_next r) = true) by (destruct r as [|[] ?]; reflexivity).
+    assert (W : wpc_ok (job_next r) = true) by (destruct r as [|[] ?]; reflexivity).
+    assert (S : is_sleep (job_next r) = false) by (destruct r as [|[] ?]; reflexivity).
+    assert (NJ : forall l0 q f a, job_next r <> Join l0 q f a) by (intros; destruct r as [|[] ?]; discriminate).
+    apply (invc_move s i _ (WWait wl r) C HT); auto; try discriminate;
       intros l0 q0 f a w E; exfalso; eapply NJ, E.
   - discriminate.
   - (* join loop *)
@@ -422,7 +473,7 @@ Proof.
 Qed.
 
 Lemma invc_uad s b : InvC s -> InvC (with_uad s b).
-Proof. intros [C1 C2 C3 C4 C5 C6 C7 C8]. constructor; auto. Qed.
+Proof. intros [C1 C2 C3 C4 C5 C6 C7 C8 C9]. constructor; auto. Qed.
 
 Theorem invc_step s i : InvB s -> InvC s -> enabled s i = true -> InvC (step s i).
 Proof.
@@ -447,6 +498,7 @@ Proof.
   - rewrite NC, TH, app_length, repeat_length. lia.
   - intros t l q f a w H. destruct (PL t _ H) as [X _]. discriminate.
   - intros _. exact WK.
+  - intros _. rewrite Q. cbn [length]. lia.
 Qed.
 
 Theorem invc_reachable ops s : reachable ops s -> InvC s.
@@ -457,6 +509,7 @@ Qed.
 (* ---------- deadlock freedom ---------- *)
 Definition at_point (p : pc) : bool :=
   match p with
+  | CAt (OWait _ :: _) => false
   | CAt _ | CDtor | WIdle | WSub _ _ _ | WHop _ _ | WPeek _ _ | WStop _ | WQry _ _ | SFin _ | Join [] _ _ _ => true
   | _ => false
   end.
@@ -466,7 +519,9 @@ Definition user_stuck (s : st) : Prop :=
   exit_ s = false /\ queue s = [] /\ exists j, j < nclients s /\ T s j = Some WSleep.
 
 Lemma at_point_enabled s i p : T s i = Some p -> at_point p = true -> enabled s i = true.
-Proof. unfold T, enabled. intros -> A. destruct p as [| | | | | | | | | | | |[|w l] q f a| |]; try discriminate; reflexivity. Qed.
+Proof.
+  unfold T, enabled. intros -> A. destruct p as [[|[] ?]| | | | | | | | | | | | |[|w l] q f a| |]; try discriminate; reflexivity.
+Qed.
 
 Lemma dec_thr s (f : pc -> bool) :
   (exists i p, T s i = Some p /\ f p = true) \/ (forall i p, T s i = Some p -> f p = false).
@@ -492,21 +547,30 @@ Proof.
   - destruct (IH n j x H). split; [assumption|lia].
 Qed.
 
-Theorem stop_no_deadlock ops s : reachable ops s -> ~ terminal s -> (exists i, enabled s i = true) \/ user_stuck s.
+(* a thread waits for the outcome of a submission (the client program / a job made itself depend on it) *)
+Definition is_wait (p : pc) : bool := match p with WWait _ _ | CAt (OWait _ :: _) => true | _ => false end.
+Definition waits_for_submission (s : st) : Prop := exists i p, T s i = Some p /\ is_wait p = true.
+
+Theorem stop_no_deadlock ops s : reachable ops s -> ~ terminal s ->
+  (exists i, enabled s i = true) \/ user_stuck s \/ waits_for_submission s.
 Proof.
   intros R NT. pose proof (invb_reachable ops s R) as B. pose proof (invu_reachable ops s R) as U.
   pose proof (invc_reachable ops s R) as C.
   (* 1. some thread stands at a lock acquisition *)
   destruct (dec_thr s at_point) as [(i & p & H & A)|NP].
   { left. exists i. eapply at_point_enabled; eassumption. }
+  (* 1b. a thread waits for a submission *)
+  destruct (dec_thr s is_wait) as [(i & p & H & A)|NWT].
+  { right. right. exists i, p. auto. }
   (* 2. a thread is joining *)
   destruct (dec_thr s (fun p => match p with Join (_ :: _) _ _ _ => true | _ => false end)) as [(i & p & H & A)|NJ].
-  { left. destruct p as [| | | | | | | | | | | |[|w l] q f a| |]; try discriminate.
+  { left. destruct p as [| | | | | | | | | | | | |[|w l] q f a| |]; try discriminate.
     pose proof (b_join s B i _ H eq_refl) as X.
     destruct (c_jw s C i _ q f a w H (or_introl eq_refl)) as ([L1 L2] & NE).
     destruct (nth_error (thrs s) w) as [pw|] eqn:E; [|apply nth_error_None in E; lia].
     destruct (at_point pw) eqn:AP; [exists w; eapply at_point_enabled; eassumption|].
-    destruct pw as [| | | | | | | | | | | |l0 q0 f0 a0|l0 q0 a0|]; try discriminate AP.
+    pose proof (NWT w pw E) as NWw.
+    destruct pw as [[|[] ?]| | | | | | | | | | | | |l0 q0 f0 a0|l0 q0 a0|]; try discriminate AP; try discriminate NWw.
     - exfalso. pose proof (proj1 (b_class s B w _ E) L1). discriminate.
     - exfalso. pose proof (proj1 (b_class s B w _ E) L1). discriminate.
     - exists w. apply (sleeper_enabled s w WSleep E eq_refl). right. apply (c_ex s C X w E).
@@ -516,8 +580,8 @@ Proof.
       pose proof (proj1 (b_class s B w _ E) L1) as Q. cbn [is_client] in Q. destruct a0; discriminate. }
   (* 3. nobody at a lock, nobody joining: CXWait, CDone, WSleep, WExit and stops waiting for another stop *)
   assert (CL : forall i p, T s i = Some p -> p = CXWait \/ p = CDone \/ p = WSleep \/ p = WExit \/ exists l q a, p = SWait l q a).
-  { intros i p H. pose proof (NP i p H) as A. pose proof (NJ i p H) as J.
-    destruct p as [| | | | | | | | | | | |[|w l] q f a|l q a|]; try discriminate; auto 6.
+  { intros i p H. pose proof (NP i p H) as A. pose proof (NJ i p H) as J. pose proof (NWT i p H) as Wt.
+    destruct p as [[|[] ?]| | | | | | | | | | | | |[|w l] q f a|l q a|]; try discriminate; auto 6.
     right. right. right. right. eauto. }
   destruct (dec_thr s (fun p => match p with SWait _ _ _ => true | _ => false end)) as [(i & p & H & A)|NS].
   { destruct p; try discriminate. pose proof (b_join s B i _ H eq_refl) as X.
@@ -525,7 +589,7 @@ Proof.
     - left. exists i. apply (sleeper_enabled s i _ H eq_refl). right. eapply (c_st s C ST); exact H.
     - exfalso. destruct (c_first s C X ST) as (t & pt & Ht & Sp).
       pose proof (NP t pt Ht) as A1. pose proof (NJ t pt Ht) as A2.
-      destruct pt as [| | | | | | | | | | | |[|w0 l0] q0 f0 a0| |]; discriminate. }
+      destruct pt as [| | | | | | | | | | | | |[|w0 l0] q0 f0 a0| |]; discriminate. }
   assert (CL2 : forall i p, T s i = Some p -> p = CXWait \/ p = CDone \/ p = WSleep \/ p = WExit).
   { intros i p H. destruct (CL i p H) as [X|[X|[X|[X|(l & q & a & X)]]]]; auto. subst p. specialize (NS i _ H). discriminate. }
   assert (XW : forall i, T s i = Some CXWait -> (forall j p, j < nclients s -> T s j = Some p -> p <> WSleep) -> enabled s i = true).
@@ -548,7 +612,7 @@ Proof.
   - destruct (queue s) as [|c0 r] eqn:Q.
     + (* idle pool: does a client thread sleep in worker()? *)
       destruct (existsb (fun j => match nth_error (thrs s) j with Some WSleep => true | _ => false end) (seq 0 (nclients s))) eqn:EB.
-      * right. apply existsb_exists in EB. destruct EB as (k & Hk & Ek). apply in_seq in Hk.
+      * right. left. apply existsb_exists in EB. destruct EB as (k & Hk & Ek). apply in_seq in Hk.
         repeat split; auto. exists k. split; [lia|]. unfold T. destruct (nth_error (thrs s) k) as [[]|]; try discriminate. reflexivity.
       * left.
         assert (NSL : forall k p, k < nclients s -> T s k = Some p -> p <> WSleep).
@@ -571,4 +635,14 @@ Proof.
         destruct (CL2 _ pw E) as [->|[->|[->| ->]]]; try discriminate.
         exists (nclients s). apply (sleeper_enabled s _ WSleep E eq_refl). left. exact TK.
       * exfalso. destruct (CL2 j pj Hj) as [->|[->|[->| ->]]]; discriminate.
+Qed.
+
+(* no lost wake-up: a worker that sleeps while work is queued always has a wake-up pending, so it can take the work
+   (this is what makes "a job waits for another submission" safe on a pool with a free worker) *)
+Theorem no_lost_wakeup ops s i : reachable ops s -> exit_ s = false -> queue s <> [] -> T s i = Some WSleep ->
+  enabled s i = true.
+Proof.
+  intros R X Q H. pose proof (invc_reachable ops s R) as C. pose proof (c_tokq s C X) as TQ.
+  pose proof (sleepers_pos s i WSleep H eq_refl) as SP.
+  apply (sleeper_enabled s i WSleep H eq_refl). left. destruct (queue s); [congruence|]. cbn [length] in TQ. lia.
 Qed.
